@@ -1,6 +1,7 @@
 package cstake
 
 import (
+	"os"
 	"fmt"
 	"math/big"
 	"sort"
@@ -349,6 +350,9 @@ func slashFindingClass(w *chain.World, valOper string) string {
 		if e := snap[d][emptyProvider]; e != nil {
 			rest.Sub(rest, e)
 		}
+		if os.Getenv("VERIF_LOGS") != "" {
+			fmt.Printf("VERIF-DEBUG class d=%s total=%s hi=%s rest=%s\n", d, snap.total(d), hi, rest)
+		}
 		if rest.Sign() <= 0 {
 			continue
 		}
@@ -364,6 +368,19 @@ func slashFindingClass(w *chain.World, valOper string) string {
 		md, found := ts.Keepers.Epochstorage.GetProviderMetadataByVault(ts.Ctx, d)
 		if !found || len(md.Chains) == 0 || snap[d][md.Provider] == nil {
 			continue
+		}
+		// exact probe of the known-finding class: run the re-balancing of this provider vault on a
+		// discarded branch of the state; the class is "BalanceDelegator of a vault is refused because
+		// an entry would fall below the minimum self delegation" (the error HandleSlashedValidators drops)
+		if dAddr, aerr := sdk.AccAddressFromBech32(d); aerr == nil {
+			cctx, _ := ts.Ctx.CacheContext()
+			_, berr := ts.Keepers.Dualstaking.BalanceDelegator(cctx, dAddr)
+			if os.Getenv("VERIF_LOGS") != "" {
+				fmt.Printf("VERIF-DEBUG probe vault %s: err=%v\n", d, berr)
+			}
+			if berr != nil && strings.Contains(berr.Error(), "self delegation below minimum") {
+				return findingSlashVault
+			}
 		}
 		// upper bound of what one entry loses: ceil(min(rest, self delegation) / entries) (+1 slack)
 		take := rest
